@@ -20,6 +20,28 @@ CLAIMED = {
             "equality and nesting.",
             "Bounds: reactions on n<=3 (thorough 4) atoms through the real ITS construction; synthetic ITS graphs on all "
             "4-node shapes, P5, P6, 5-ring (thorough: all 5-node shapes <=6 bonds, P7, 6-ring), radii 0..3."),
+    "C03": ("Bounded symbolic model checking of the whole rule-application pipeline on the real code (SynRule construction, "
+            "VF2 matching, symmetry pruning, _glue_graph/_node_glue, template inversion): for every proposed reaction the "
+            "reactant side equals the substrate, elements/hydrogens/charge are conserved, and there is a placement of the "
+            "template at which the result differs from the substrate by exactly the template's bond-order, hydrogen and "
+            "charge changes - one z3 query per clause and path over all substrate labels and template product sides.",
+            "Bounds: centre templates of balanced reactions on 2 (thorough 3) atoms, substrates <=3 (4) atoms, forward and "
+            "invert, strategies all/comp/bt, implicit-hydrogen mode; NoCanon passed via canonicaliser=; template left "
+            "labels are realised by the pruning code. SMARTS output (RDKit) is outside."),
+    "C04": ("Bounded symbolic model checking: every balanced reaction within the bounds, its centre and full-ITS template "
+            "under a solver-chosen renumbering, applied forwards to the reactants and backwards (invert) to the products "
+            "by the real SynReactor; the formula 'some result is isomorphic to the reaction' must be implied by the path "
+            "condition.",
+            "Bounds: n=2 full domains, n=3 reduced (thorough: charges, n=4); strategy all always, comp/bt where the "
+            "documented component semantics admit the identity placement; centre template assumes every atom with a "
+            "hydrogen/charge change is incident to a changed bond; SMILES-level rewriting (RDKit) outside."),
+    "C05": ("Bounded symbolic model checking of SynReactor on pairs (template, substrate): result sets compared up to ITS "
+            "isomorphism between the original call and (i) a repeated call, (ii) every renumbering of the template, (iii) a "
+            "renumbered/re-ordered substrate; comp subset of all; bt = comp if non-empty else all; pruned results = gluing "
+            "every raw match (the C11 pruning clause).",
+            "Bounds: k=2 templates on substrates <=3 atoms, k=3 carbon-only templates (quick) / full (thorough); two-stage "
+            "query: identical-reaction formula first, full isomorphism formula only if that can fail; SMILES rewriting is "
+            "represented by node renumbering and insertion order."),
     "C06": ("Bounded symbolic model checking of SubgraphSearchEngine.find_subgraph_mappings on the real VF2-based code: "
             "host and pattern on concrete shapes with symbolic element/charge/hcount/order; for every injection the "
             "validity formula must coincide with membership in the returned list (strategies all/comp/bt, strict "
